@@ -154,8 +154,27 @@ def population_task(task, wdir, res):
         if not r.startswith("OK TOKEN"):
             raise Inconclusive(f"admin AUTH failed: {r!r}")
 
+        conn = {"adm": adm}
+
+        def connect_admin():
+            node_ = lt.node
+            node_.meta("serve")
+            a = None
+            for _ in range(50):
+                try:
+                    a = Client(port)
+                    break
+                except OSError:
+                    time.sleep(0.1)
+            if a is None:
+                raise Inconclusive("TCP listener did not come up after restart")
+            r_ = a.send("AUTH %s:%s" % (admin_id, sig(admin_key, admin_id)))
+            if not r_.startswith("OK TOKEN"):
+                raise Inconclusive(f"admin AUTH failed after restart: {r_!r}")
+            conn["adm"] = a
+
         def admin(cmd, expect_ok=True):
-            rep = adm.send(sig(admin_key, cmd) + ":" + cmd)
+            rep = conn["adm"].send(sig(admin_key, cmd) + ":" + cmd)
             k, rows, code = parse_reply(rep)
             if expect_ok and k not in ("ok", "rows"):
                 raise Inconclusive(f"admin command {cmd!r} -> {rep[:200]!r}")
@@ -318,8 +337,7 @@ def population_task(task, wdir, res):
 
         probe_all("initial")
         plain = [u for u in users.values() if re.fullmatch("[A-Za-z0-9_]+", u.uid)]
-        for step in range(task["steps"]):
-            u = rng.choice(list(users.values()))
+        def change(u):
             r = rng.random()
             ref = u.uid if re.fullmatch("[A-Za-z0-9_]+", u.uid) else json.dumps(u.uid, ensure_ascii=False)
             t = rng.choice(TYPES)
@@ -347,10 +365,34 @@ def population_task(task, wdir, res):
                 k, _, rep = admin(cmd, expect_ok=False)
                 if k == "ok":
                     u.active = False
+            return cmd, rep
+
+        for step in range(task["steps"]):
+            u = rng.choice(list(users.values()))
+            # a burst: several changes to one user within the same wall-clock second (the auth log carries one-second timestamps)
+            burst = rng.choice([1, 1, 2, 3, 4])
+            for _ in range(burst):
+                cmd, rep = change(u)
+                if _ < burst - 1:
+                    witness["steps"].append(cmd + " -> " + rep.strip().replace("\n", " | ")[:60])
+            res.add_set("burst_sizes", burst)
             witness["steps"].append(cmd + " -> " + rep.strip().replace("\n", " | ")[:60])
             probe_all(f"after step {step}: {cmd}")
+            if rng.random() < (0.6 if burst > 1 else 0.25):
+                # users, keys, roles and permissions are reloaded from the auth log: what was revoked stays revoked
+                how = rng.choice(["clean", "kill"])
+                conn["adm"].close()
+                if how == "clean":
+                    lt.restart_clean()
+                else:
+                    lt.restart_kill()
+                connect_admin()
+                tokens.clear()
+                witness["steps"].append(f"restart ({how})")
+                res.add_set("restarts", how)
+                probe_all(f"after step {step} + {how} restart")
         res.sample({"users": {u.uid[:12]: sorted(u.roles) for u in users.values()}, "steps": witness["steps"][-6:]})
-        adm.close()
+        conn["adm"].close()
     finally:
         lt.stop()
 
